@@ -100,6 +100,9 @@ func (pr *Program) VerifyFunc(fi *FuncInfo) (rep *FuncReport) {
 		}
 	}
 	x.bindParams(s, cc, fi.Decl.Type, fi.Decl.Recv, recv, args, fi.Decl.Pos())
+	if fi.Lit != nil {
+		x.bindCaptured(s, cc, fi)
+	}
 	sc := &specCtx{fi: fi, bound: map[string]*Value{}}
 	for i, t := range cc.resTypes {
 		sc.resType = append(sc.resType, t)
@@ -605,5 +608,50 @@ func (x *Exec) bindPostLets(es *State, c *Contract, sc *specCtx) {
 	sc.bound = nb
 	for _, l := range c.PostLets {
 		nb[l.Tag] = x.evalSpec(es, l.Expr, sc)
+	}
+}
+
+
+// bindCaptured gives every variable a function literal captures from its enclosing function an unconstrained symbolic value
+// (any value the enclosing function could have left there); relations between captured variables go into requires.
+func (x *Exec) bindCaptured(s *State, cc *callCtx, fi *FuncInfo) {
+	info := fi.Pkg.P.TypesInfo
+	seen := map[types.Object]bool{}
+	var order []*types.Var
+	ast.Inspect(fi.Lit.Body, func(n ast.Node) bool {
+		id, ok := n.(*ast.Ident)
+		if !ok {
+			return true
+		}
+		v, ok := info.Uses[id].(*types.Var)
+		if !ok || v.IsField() || seen[v] {
+			return true
+		}
+		if v.Parent() == nil || v.Parent() == v.Pkg().Scope() || v.Parent() == types.Universe {
+			return true
+		}
+		if v.Pos() >= fi.Lit.Pos() && v.Pos() <= fi.Lit.End() {
+			return true
+		}
+		seen[v] = true
+		order = append(order, v)
+		return true
+	})
+	for _, v := range order {
+		var val *Value
+		switch {
+		case isCtxType(v.Type()):
+			w := NewWorld("wcap." + v.Name())
+			val = &Value{K: KCtx, Typ: v.Type(), W: s.NewWorldID(w)}
+		case isKeeperLike(v.Type()):
+			val = &Value{K: KOpaque, Typ: v.Type()}
+		default:
+			val = x.namedValue(v.Type(), "cap."+v.Name(), s)
+			if val.K == KPtr {
+				s.Assume(Not(val.NilT))
+			}
+			x.collectInputs(s, "cap."+v.Name(), val)
+		}
+		cc.env.Bind(v, s.Alloc(val))
 	}
 }
